@@ -41,10 +41,10 @@ from harness.extract_consts import BrokenTie, _read
 class Sc:
     """Coq expression `e` of type t in {'R', 'oR', 'Z', 'row', 'orow'}:
     real, NaN-able real (option R), integer, one row of a 2-D array (list R), failing row"""
-    __slots__ = ("e", "t")
+    __slots__ = ("e", "t", "ilit")
 
-    def __init__(self, e, t="R"):
-        self.e, self.t = e, t
+    def __init__(self, e, t="R", ilit=None):
+        self.e, self.t, self.ilit = e, t, ilit      # ilit: value of a Python int literal
 
 
 class Bo:
@@ -72,6 +72,42 @@ class RowTest:
 
 
 ROWVAR = "v_"
+PAIRVAR = "p_"
+
+
+def subst_var(e, name, repl):
+    """replace the variable `name` in an IR expression"""
+    if isinstance(e, tuple):
+        if e == ("var", name):
+            return repl
+        return tuple(subst_var(x, name, repl) for x in e)
+    if isinstance(e, list):
+        return [subst_var(x, name, repl) for x in e]
+    return e
+
+
+def free_in(name, e):
+    if isinstance(e, tuple):
+        if e == ("var", name):
+            return True
+        return any(free_in(name, x) for x in e)
+    if isinstance(e, list):
+        return any(free_in(name, x) for x in e)
+    return False
+
+
+def prune_lets(e):
+    """drop `let x := v in body` when x does not occur in body"""
+    if isinstance(e, tuple):
+        if e and e[0] == "let":
+            body = prune_lets(e[3])
+            if not free_in(e[1], body):
+                return body
+            return ("let", e[1], prune_lets(e[2]), body)
+        return tuple(prune_lets(x) for x in e)
+    if isinstance(e, list):
+        return [prune_lets(x) for x in e]
+    return e
 
 
 class Obj:
@@ -104,6 +140,22 @@ class OptArg:
 
 class PyNone:
     pass
+
+
+class Fwd:
+    """an abstract transform object (`trans`): trans.forward is the real function `name`"""
+    __slots__ = ("name",)
+
+    def __init__(self, name):
+        self.name = name
+
+
+class Dict:
+    """dict literal with string keys"""
+    __slots__ = ("keys", "vals")
+
+    def __init__(self, keys, vals):
+        self.keys, self.vals = list(keys), list(vals)
 
 
 class Str:
@@ -223,6 +275,8 @@ def render(e, ind=2):
         return f"(isclose {render(e[1])} {render(e[2])})"
     if k == "lam":       # fun v => body
         return f"(fun {e[1]} => {render(e[2])})"
+    if k == "pair":
+        return f"({render(e[1])}, {render(e[2])})"
     raise BrokenTie(f"internal: cannot render {k}")
 
 
@@ -242,7 +296,9 @@ def strip_outer(s):
 
 
 COQ_TYPE = {"R": "R", "oR": "option R", "B": "bool", "Z": "Z", "optarg": "option R",
-            "row": "list R", "orow": "option (list R)", "oZ": "option Z"}
+            "row": "list R", "orow": "option (list R)", "oZ": "option Z", "vec": "list R",
+            "pairR": "R * R", "fun1": "list R -> R", "fun2": "list R -> list R -> R",
+            "fwd": "R -> R"}
 
 
 class Def:
@@ -260,7 +316,7 @@ class Def:
             else:
                 groups.append(([nm], ty))
         binders = "".join(f" ({' '.join(ns)} : {COQ_TYPE[ty]})" for ns, ty in groups)
-        body = strip_outer(render(self.body))
+        body = strip_outer(render(prune_lets(self.body)))
         out = [f"(* {self.origin} *)"]
         for s in self.skipped:
             out.append(f"(*   skipped as glue: {s} *)")
@@ -410,6 +466,9 @@ class Translator:
         self.skipped = []        # glue skipped while translating the current definition
         self.rules = set()       # rewriting rules actually used (for the notes)
         self.used = set()        # Coq names bound in the current definition
+        self.libparams = {}      # library functions used by the current definition
+        self.checks_only = False # argument-check mode (see translate_function)
+        self.extra_params = []   # element variables introduced by np.arange
         self._stack = []
 
     # ---------------- helpers ----------------
@@ -466,20 +525,31 @@ class Translator:
 
     def arith(self, op, a, b, node):
         a, b = self.scalar(a, node), self.scalar(b, node)
-        if a.t == "Z" and b.t == "Z":
-            if op == "/":
-                self.fail("true division of integers is not supported", node)
-            return Sc(("zbin", op, a.e, b.e), "Z")
         if "Z" in (a.t, b.t):
-            self.fail("mixed integer / real arithmetic", node)
+            # an int literal next to an integer stays an integer
+            if a.t == "Z" and b.ilit is not None and op != "/":
+                b = Sc(("znum", b.ilit), "Z")
+            elif b.t == "Z" and a.ilit is not None and op != "/":
+                a = Sc(("znum", a.ilit), "Z")
+            if a.t == "Z" and b.t == "Z" and op != "/":
+                return Sc(("zbin", op, a.e, b.e), "Z")
+            self.rule("integer operand of `/`, or integer next to a real: IZR (int / int is true "
+                      "division; + - * between integers stay in Z)")
+            a, b = self.to_real(a), self.to_real(b)
         if a.t == "R" and b.t == "R":
             return Sc(("bin", op, a.e, b.e), "R")
         self.rule("arithmetic on a NaN-able value: olift2 (NaN propagates)")
         f = {"+": "Rplus", "-": "Rminus", "*": "Rmult", "/": "Rdiv"}[op]
         return Sc(("olift2", f, self.opt(a), self.opt(b)), "oR")
 
+    @staticmethod
+    def to_real(v):
+        if v.t == "Z":
+            return Sc(("app", "IZR", [v.e]), "R")
+        return v
+
     def unary(self, f, a, node):
-        a = self.scalar(a, node)
+        a = self.to_real(self.scalar(a, node))
         if a.t == "R":
             return Sc(("app", f, [a.e]), "R")
         if a.t == "oR":
@@ -487,7 +557,7 @@ class Translator:
         self.fail(f"{f} of a non-real value", node)
 
     def power(self, a, b, node):
-        a, b = self.scalar(a, node), self.scalar(b, node)
+        a, b = self.to_real(self.scalar(a, node)), self.to_real(self.scalar(b, node))
         if a.t != "R" or b.t != "R":
             if a.t in ("R", "oR") and b.t in ("R", "oR"):
                 self.rule("x ** y on a NaN-able value: olift2 Rpower")
@@ -577,7 +647,14 @@ class Translator:
             self.fail("comparison operator not supported", node)
         self.rule("a > b: Rltb b a; a >= b: Rleb b a; a < b: Rltb a b; a <= b: Rleb a b; "
                   "a == b: Reqb a b; a != b: negb (Reqb a b)")
+        if x.t == "Z" and y.ilit is not None:
+            y = Sc(("znum", y.ilit), "Z")
+        elif y.t == "Z" and x.ilit is not None:
+            x = Sc(("znum", x.ilit), "Z")
+        elif "Z" in (x.t, y.t) and x.t != y.t:
+            x, y = self.to_real(x), self.to_real(y)
         if x.t == "Z" and y.t == "Z":
+            self.rule("comparison of integers: Z.ltb / Z.leb / Z.eqb")
             e = ("zcmp", k, x.e, y.e)
         elif x.t == "R" and y.t == "R":
             e = ("cmp", k, x.e, y.e)
@@ -640,7 +717,7 @@ class Translator:
         if isinstance(v, int):
             if env.d.get("__mode__") == "Z":
                 return Sc(("znum", v), "Z")
-            return Sc(("num", Fraction(v)), "R")
+            return Sc(("num", Fraction(v)), "R", ilit=v)
         if isinstance(v, float):
             if math.isnan(v):
                 return Sc(NONE_E, "oR")
@@ -692,6 +769,13 @@ class Translator:
     def e_Subscript(self, node, env):
         base = self.expr(node.value, env)
         sl = node.slice
+        if isinstance(base, tuple) and base and base[0] == "corrcoef":
+            if isinstance(sl, ast.Tuple) and [getattr(x, "value", None) for x in sl.elts] == [0, 1]:
+                self.rule("np.sum / np.mean / np.std / np.corrcoef(a, b)[0, 1] of 1-D arrays: library "
+                          "functions np_sum, np_mean, np_std, np_corrcoef01 : PARAMETERS of the generated "
+                          "definition (instantiated with the model's own functions in the theorems)")
+                return Sc(("app", self.libfun("np_corrcoef01", "fun2"), [base[1].e, base[2].e]), "R")
+            self.fail("only np.corrcoef(a, b)[0, 1] is supported", node)
         if isinstance(base, Li):
             if isinstance(sl, ast.Constant) and isinstance(sl.value, int) \
                     and not isinstance(sl.value, bool) and 0 <= sl.value < len(base.items):
@@ -724,6 +808,14 @@ class Translator:
 
     e_List = e_Tuple
 
+    def e_Dict(self, node, env):
+        keys = []
+        for k in node.keys:
+            if not (isinstance(k, ast.Constant) and isinstance(k.value, str)):
+                self.fail("dict key that is not a string literal", node)
+            keys.append(k.value)
+        return Dict(keys, [self.expr(v, env) for v in node.values])
+
     def e_UnaryOp(self, node, env):
         v = self.expr(node.operand, env)
         if isinstance(node.op, ast.USub):
@@ -736,9 +828,9 @@ class Translator:
                 return Sc(("neg", v.e), "R")      # -2. stays `- 2` (Ropp 2), as written
             if v.t == "oR":
                 return Sc(("olift1", "Ropp", v.e), "oR")
-            if v.t == "row":
-                body, src = self.row_body(v)
-                return self.mk_row(("neg", body), src)
+            if self.is_row(v):
+                body, srcs = self.row_parts(v)
+                return self.mk_row(("neg", body), srcs, v.t)
             self.fail("negation of a non-real value", node)
         if isinstance(node.op, ast.UAdd):
             return self.scalar(v, node)
@@ -807,6 +899,15 @@ class Translator:
             if isinstance(base, Obj):
                 args = self.plain_args(node, env)
                 return self.call_method(base, f.attr, args, node)
+            if isinstance(base, Fwd):
+                if f.attr != "forward":
+                    self.fail(f"method .{f.attr} of an abstract transform", node)
+                (a,) = self.plain_args(node, env, 1)
+                self.rule("trans.forward(x) for the transform ARGUMENT of a score: the real function "
+                          "fwd (a parameter of the generated definition), mapped over arrays")
+                if self.is_row(a):
+                    return self.row_map(base.name, a)
+                return self.unary(base.name, a, node)
             if isinstance(base, Sc) and f.attr in GLUE_METHODS:
                 self.skip(f".{f.attr}(...) (identity on the elements)")
                 return base
@@ -833,8 +934,12 @@ class Translator:
             return self.unary("Rabs", a, node)
         if name == "float":
             (a,) = self.plain_args(node, env, 1)
+            a = self.scalar(a, node)
+            if a.t == "Z":
+                self.rule("float(n) for an integer n: IZR n")
+                return self.to_real(a)
             self.skip("float(...) (identity on a real)")
-            return self.scalar(a, node)
+            return a
         if name in ("max", "min"):
             a, b = self.plain_args(node, env, 2)
             return self.maxmin("Rmax" if name == "max" else "Rmin", a, b, node)
@@ -923,59 +1028,112 @@ class Translator:
                     self.fail(f"np.{fn} of something that is not an element", node)
                 self.rule("np.ones_like(x): 1, np.zeros_like(x): 0 (element-wise)")
                 return Sc(("num", Fraction(1 if fn == "ones_like" else 0)), "R")
-            if mod == "np" and fn in ("sum", "prod", "any", "all"):
+            if mod == "np" and fn in ("sum", "prod", "any", "all", "mean", "std"):
                 return self.row_reduce(fn, node, env)
+            if mod == "np" and fn == "arange":
+                args = self.plain_args(node, env, 1, 2)
+                for a in args:
+                    if self.scalar(a, node).t not in ("R", "Z"):
+                        self.fail("np.arange bounds", node)
+                if self.extra_params:
+                    self.fail("more than one np.arange", node)
+                nm = "i_"
+                self.extra_params.append((nm, "R"))
+                self.rule("np.arange(a, b): the generated definition gives the ELEMENT of the result "
+                          "at an index value i_ (an extra real argument standing for an integer "
+                          "a <= i_ < b); the range itself is not translated")
+                return Sc(("var", nm), "R")
+            if mod == "np" and fn == "corrcoef":
+                a, b = self.plain_args(node, env, 2)
+                if not (self.is_row(a) and self.is_row(b) and a.t == "vec" and b.t == "vec"):
+                    self.fail("np.corrcoef of something else than two 1-D arrays", node)
+                return ("corrcoef", a, b)
         self.fail(f"call {mod}.{fn} is outside the supported subset", node)
 
-    # ---------------- rows (2-D arrays handled one row at a time) ----------------
-    # a row expression is either a variable or `map (fun v_ => body) src`
+    # ---------------- rows / vectors ----------------
+    # type 'row' : one row of a 2-D array (reductions: np.sum(x, axis=1) = rsum ...)
+    # type 'vec' : a 1-D array (reductions np.sum / np.mean / np.std / np.corrcoef are library
+    #              functions, taken as PARAMETERS of the generated definition)
+    # An element-wise expression on them is  map (fun v_ => body) src   or, with two
+    # different sources,  map (fun p_ => body) (combine src1 src2)  (v_ = fst p_ / snd p_).
     @staticmethod
     def is_row(v):
-        return isinstance(v, Sc) and v.t == "row"
+        return isinstance(v, Sc) and v.t in ("row", "vec")
 
     @staticmethod
-    def row_body(row):
-        """(body in terms of the bound element v_, source row expression)"""
+    def row_parts(row):
+        """(body, [sources]) ; body in terms of v_ (one source) or fst p_ / snd p_ (two)"""
         e = row.e
         if e[0] == "app" and e[1] == "map" and e[2][0][0] == "lam":
-            return e[2][0][2], e[2][1]
-        return ("var", ROWVAR), e
+            src = e[2][1]
+            if e[2][0][1] == PAIRVAR:
+                return e[2][0][2], list(src[2])
+            return e[2][0][2], [src]
+        return ("var", ROWVAR), [e]
+
+    def row_body(self, row):
+        body, srcs = self.row_parts(row)
+        if len(srcs) != 1:
+            raise BrokenTie("internal: two-source row where one source is expected")
+        return body, srcs[0]
 
     @staticmethod
-    def mk_row(body, src):
+    def mk_row(body, src, t="row"):
+        if isinstance(src, list):
+            if len(src) == 1:
+                src = src[0]
+            else:
+                return Sc(("app", "map", [("lam", PAIRVAR, body), ("app", "combine", src)]), t)
         if body == ("var", ROWVAR):
-            return Sc(src, "row")
-        return Sc(("app", "map", [("lam", ROWVAR, body), src]), "row")
+            return Sc(src, t)
+        return Sc(("app", "map", [("lam", ROWVAR, body), src]), t)
 
     def row_map(self, f, row):
-        body, src = self.row_body(row)
-        self.rule("element-wise function / arithmetic on a row x: map (fun v_ => ...) x")
-        return self.mk_row(("app", f, [body]), src)
+        body, srcs = self.row_parts(row)
+        self.rule("element-wise function / arithmetic on an array x: map (fun v_ => ...) x; on two "
+                  "arrays: map (fun p_ => ... fst p_ ... snd p_ ...) (combine x y)")
+        return self.mk_row(("app", f, [body]), srcs, row.t)
 
     def row_arith(self, op, a, b, node):
         opc = {ast.Add: "+", ast.Sub: "-", ast.Mult: "*", ast.Div: "/"}.get(type(op))
-        if self.is_row(a) and self.is_row(b):
-            self.fail("arithmetic between two rows is not supported", node)
-        self.rule("element-wise function / arithmetic on a row x: map (fun v_ => ...) x")
+        self.rule("element-wise function / arithmetic on an array x: map (fun v_ => ...) x; on two "
+                  "arrays: map (fun p_ => ... fst p_ ... snd p_ ...) (combine x y)")
         if opc is None:
-            if isinstance(op, ast.Pow) and self.is_row(a):
-                body, src = self.row_body(a)
+            if isinstance(op, ast.Pow) and self.is_row(a) and not self.is_row(b):
+                body, srcs = self.row_parts(a)
                 p = self.power(Sc(body, "R"), b, node)
                 if p.t != "R":
-                    self.fail("row power with a NaN-able exponent", node)
-                return self.mk_row(p.e, src)
-            self.fail("row operator not supported", node)
+                    self.fail("array power with a NaN-able exponent", node)
+                return self.mk_row(p.e, srcs, a.t)
+            self.fail("array operator not supported", node)
+        if self.is_row(a) and self.is_row(b):
+            if a.t != b.t:
+                self.fail("arithmetic between a row and a vector", node)
+            ba, sa = self.row_parts(a)
+            bb, sb = self.row_parts(b)
+            if sa == sb:
+                return self.mk_row(("bin", opc, ba, bb), sa, a.t)
+            if len(sa) == 1 and len(sb) == 1:
+                ba = subst_var(ba, ROWVAR, ("app", "fst", [("var", PAIRVAR)]))
+                bb = subst_var(bb, ROWVAR, ("app", "snd", [("var", PAIRVAR)]))
+                return self.mk_row(("bin", opc, ba, bb), [sa[0], sb[0]], a.t)
+            self.fail("element-wise arithmetic over more than two different arrays", node)
         if self.is_row(a):
-            body, src = self.row_body(a)
-            b = self.scalar(b, node)
+            body, srcs = self.row_parts(a)
+            b = self.to_real(self.scalar(b, node))
             if b.t != "R":
-                self.fail("row arithmetic with a non-real scalar", node)
-            return self.mk_row(("bin", opc, body, b.e), src)
-        body, src = self.row_body(b)
-        a = self.scalar(a, node)
+                self.fail("array arithmetic with a non-real scalar", node)
+            return self.mk_row(("bin", opc, body, b.e), srcs, a.t)
+        body, srcs = self.row_parts(b)
+        a = self.to_real(self.scalar(a, node))
         if a.t != "R":
-            self.fail("row arithmetic with a non-real scalar", node)
-        return self.mk_row(("bin", opc, a.e, body), src)
+            self.fail("array arithmetic with a non-real scalar", node)
+        return self.mk_row(("bin", opc, a.e, body), srcs, b.t)
+
+    def libfun(self, name, ty):
+        """a library function taken as a parameter of the generated definition"""
+        self.libparams.setdefault(name, ty)
+        return name
 
     def row_reduce(self, fn, node, env):
         axis = None
@@ -999,9 +1157,18 @@ class Translator:
                            [("lam", ROWVAR, a.body), a.src]))
             self.fail(f"np.{fn} of something that is not an element-wise test", node)
         if not self.is_row(a):
-            self.fail(f"np.{fn} of a non-row", node)
+            self.fail(f"np.{fn} of a non-array", node)
+        if a.t == "vec":
+            if axis is not None or fn not in ("sum", "mean", "std"):
+                self.fail(f"np.{fn} of a 1-D array with these arguments", node)
+            self.rule("np.sum / np.mean / np.std / np.corrcoef(a, b)[0, 1] of 1-D arrays: library "
+                      "functions np_sum, np_mean, np_std, np_corrcoef01 : PARAMETERS of the generated "
+                      "definition (instantiated with the model's own functions in the theorems)")
+            return Sc(("app", self.libfun(f"np_{fn}", "fun1"), [a.e]), "R")
         if axis is None:
             self.fail(f"np.{fn} without axis=1 on a 2-D array", node)
+        if fn not in ("sum", "prod"):
+            self.fail(f"np.{fn} along a row", node)
         f = {"sum": "rsum", "prod": "rprod"}[fn]
         self.rule("np.sum(x, axis=1): rsum row; np.prod(x, axis=1): rprod row")
         return Sc(("app", f, [a.e]), "R")
@@ -1287,11 +1454,17 @@ class Translator:
             self.skip(g)
             return self.stmts(rest, env, where)
         if isinstance(s, ast.Return):
+            if self.checks_only and len(self._stack) == 1:
+                self.rule("argument-check mode: every `raise` is false, the final `return <e>` is true; "
+                          "<e> itself is NOT translated")
+                return Bo(TRUE)
             if s.value is None:
                 self.fail("bare return", s)
             v = self.expr(s.value, env)
             return v
         if isinstance(s, ast.Raise):
+            if self.checks_only:
+                return Bo(FALSE)
             self.rule("raise ...: None (the call fails; same convention as NaN)")
             return Sc(NONE_E, "oR")
         if self.is_shape_check(s):
@@ -1329,16 +1502,23 @@ class Translator:
         self.fail(f"statement {type(s).__name__} not supported", s)
 
     def wrap_lets(self, lets, body):
-        for name, v in reversed(lets):
-            if isinstance(body, Sc):
-                body = Sc(("let", name, v, body.e), body.t)
-            elif isinstance(body, Bo):
-                body = Bo(("let", name, v, body.e))
-            elif isinstance(body, Li) and all(isinstance(x, Sc) for x in body.items):
-                body = Li([Sc(("let", name, v, x.e), x.t) for x in body.items])
-            else:
-                self.fail(f"function returns {type(body).__name__}")
-        return body
+        """let-bindings around every leaf of the returned value"""
+        if not lets:
+            return body
+
+        def wrap(e):
+            for name, v in reversed(lets):
+                e = ("let", name, v, e)
+            return e
+        if isinstance(body, Sc):
+            return Sc(wrap(body.e), body.t)
+        if isinstance(body, Bo):
+            return Bo(wrap(body.e))
+        if isinstance(body, Li):
+            return Li([self.wrap_lets(lets, x) for x in body.items])
+        if isinstance(body, Dict):
+            return Dict(body.keys, [self.wrap_lets(lets, x) for x in body.vals])
+        self.fail(f"function returns {type(body).__name__}")
 
     def assign(self, s, env):
         """-> (new env, [(coq name, expr)] let-bindings to wrap around the rest)"""
@@ -1357,14 +1537,20 @@ class Translator:
             return self.bind_name(t.id, val, env, s)
         if isinstance(t, (ast.Tuple, ast.List)):
             val = self.expr(s.value, env)
-            if not isinstance(val, Li) or len(val.items) != len(t.elts):
-                self.fail("tuple unpacking of something that is not a list of the same length", s)
             lets = []
-            for e, v in zip(t.elts, val.items):
-                if not isinstance(e, ast.Name):
-                    self.fail("nested unpacking", s)
-                env, l2 = self.bind_name(e.id, v, env, s)
-                lets += l2
+
+            def unpack(tnode, v, env):
+                if isinstance(tnode, ast.Name):
+                    env, l2 = self.bind_name(tnode.id, v, env, s)
+                    lets.extend(l2)
+                    return env
+                if isinstance(tnode, (ast.Tuple, ast.List)) and isinstance(v, Li) \
+                        and len(v.items) == len(tnode.elts):
+                    for e2, v2 in zip(tnode.elts, v.items):
+                        env = unpack(e2, v2, env)
+                    return env
+                self.fail("tuple unpacking of something that is not a list of the same length", s)
+            env = unpack(t, val, env)
             self.rule("a, b = self.params.values: the stored parameter values, in the order of "
                       "the Vector's names")
             return env, lets
@@ -1396,7 +1582,7 @@ class Translator:
         return cn
 
     def bind_name(self, name, val, env, node):
-        if isinstance(val, (Li, Obj, Vec, OptArg, PyNone, Str, Mod)):
+        if isinstance(val, (Li, Obj, Vec, OptArg, PyNone, Str, Mod, Dict, Fwd)):
             return env.bind(name, val), []
         if isinstance(val, Sc):
             atom = val.e[0] in ("num", "znum", "var", "none")
@@ -1512,6 +1698,7 @@ class Translator:
             raise BrokenTie(f"{self.m.rel}: {cls}.{method} must take (self, x)")
         saved = (self.skipped, self._stack)
         self.skipped, self._stack = [], [f"{cls}.{method}"]
+        self.libparams, self.checks_only, self.extra_params = {}, False, []
         try:
             obj = self.new_object(cls, {}, fn, top=True)
             x = coq_ident(argn[1])
@@ -1543,8 +1730,19 @@ class Translator:
         finally:
             self.skipped, self._stack = saved
 
-    def translate_function(self, name, argtypes, coqname=None, mode="R"):
-        """module-level function; argtypes: [(python arg name, 'R'|'Z'|'optarg')]"""
+    def translate_function(self, name, argspec, coqname, mode="R", checks_only=False,
+                           select=0):
+        """Module-level function -> list of Def.
+
+        argspec: [(python name, kind)] in the order of the function's arguments; kind is
+          'R' | 'Z' | 'vec' | 'optarg'      an argument of that Coq type
+          'fwd'                            a transform object (only .forward is used)
+          ('fixed', value)                 the definition is generated for this value of the
+                                           argument (a Python constant: bool / str / number)
+          ('mat', [[names]], 'Z'|'R')      a nested list bound by tuple unpacking
+        A returned tuple of scalars gives one definition per component (<coqname>_<k>), a
+        returned dict one per key (<coqname>_<key>); of a returned tuple of dicts only the
+        dict number `select` is generated.  checks_only: see the rule text."""
         fn = self.m.functions.get(name)
         if fn is None:
             raise BrokenTie(f"{self.m.rel}: function {name} not found")
@@ -1552,24 +1750,82 @@ class Translator:
         if a.posonlyargs or a.kwonlyargs or a.vararg or a.kwarg:
             raise BrokenTie(f"{self.m.rel}: signature of {name} not supported")
         argn = [x.arg for x in a.args]
-        if argn != [n for n, _ in argtypes]:
+        if argn != [n for n, _ in argspec]:
             raise BrokenTie(f"{self.m.rel}: {name}{tuple(argn)}: expected arguments "
-                            f"{tuple(n for n, _ in argtypes)}")
-        saved = (self.skipped, self._stack)
-        self.skipped, self._stack = [], [name]
+                            f"{tuple(n for n, _ in argspec)}")
+        saved = (self.skipped, self._stack, self.libparams, self.checks_only, self.extra_params)
+        self.skipped, self._stack, self.libparams = [], [name], {}
+        self.checks_only, self.extra_params = checks_only, []
         try:
             env = Env({"__mode__": mode})
-            self.used = {ROWVAR}
-            sig = []
-            for n, ty in argtypes:
+            self.used = {ROWVAR, PAIRVAR, "i_"}
+            sig, fixed = [], []
+            for n, kind in argspec:
                 cn = coq_ident(n)
+                if isinstance(kind, tuple) and kind[0] == "fixed":
+                    v = kind[1]
+                    fixed.append(f"{n}={v!r}")
+                    if isinstance(v, bool):
+                        env = env.bind(n, Bo(TRUE if v else FALSE))
+                    elif isinstance(v, str):
+                        env = env.bind(n, Str(v))
+                    elif v is None:
+                        env = env.bind(n, PYNONE)
+                    else:
+                        env = env.bind(n, Sc(("num", Fraction(v)), "R",
+                                             ilit=v if isinstance(v, int) else None))
+                    continue
+                if isinstance(kind, tuple) and kind[0] == "mat":
+                    rows = []
+                    for r in kind[1]:
+                        items = []
+                        for nm in r:
+                            c2 = coq_ident(nm)
+                            self.used.add(c2)
+                            sig.append((c2, kind[2]))
+                            items.append(Sc(("var", c2), kind[2]))
+                        rows.append(Li(items))
+                    env = env.bind(n, Li(rows))
+                    continue
                 self.used.add(cn)
-                sig.append((cn, ty))
-                env = env.bind(n, OptArg(cn) if ty == "optarg" else Sc(("var", cn), ty))
+                sig.append((cn, kind))
+                if kind == "optarg":
+                    env = env.bind(n, OptArg(cn))
+                elif kind == "fwd":
+                    env = env.bind(n, Fwd(cn))
+                else:
+                    env = env.bind(n, Sc(("var", cn), kind))
             val = self.stmts(fn.body, env, fn)
-            return val, sig, fn, list(self.skipped)
+            lib = [(k, v) for k, v in self.libparams.items()]
+            params = lib + sig + list(self.extra_params)
+            origin = f"{self.m.rel}: {name} (line {fn.lineno})" + \
+                (f" with {', '.join(fixed)}" if fixed else "")
+            if checks_only:
+                origin += " - argument checks only"
+            outs = []
+
+            def one(cname, v):
+                if isinstance(v, Bo):
+                    outs.append(Def(cname, params, "B", v.e, origin, list(self.skipped)))
+                elif isinstance(v, Sc) and v.t in COQ_TYPE:
+                    outs.append(Def(cname, params, v.t, v.e, origin, list(self.skipped)))
+                else:
+                    self.fail(f"{cname}: value of kind {type(v).__name__} cannot be emitted", fn)
+            if isinstance(val, Li) and val.items and all(isinstance(x, Dict) for x in val.items):
+                val = val.items[select]
+            if isinstance(val, Dict):
+                for k, v in zip(val.keys, val.vals):
+                    one(f"{coqname}_{coq_ident(k)}", v)
+            elif isinstance(val, Li):
+                for k, v in enumerate(val.items):
+                    one(f"{coqname}_{k}", v)
+            else:
+                one(coqname, val)
+            for d in outs:
+                self.defs[(name, d.name)] = d
+            return outs
         finally:
-            self.skipped, self._stack = saved
+            self.skipped, self._stack, self.libparams, self.checks_only, self.extra_params = saved
 
 
 if __name__ == "__main__":
